@@ -269,8 +269,10 @@ def _link_one(a):
     d = os.path.join(tmp, 'v%02d' % idx)
     os.makedirs(d, exist_ok=True)
     b = core.Builder(d)
-    return b.driver('c03', 'asan', ['c03_detect_stub.c'], objs, wraps=wraps_for(v['cpu']),
-                    cpu=v['cpu'], defs=['STUB_' + s.upper() for s in v['stubs']])
+    return b.driver('c03', 'asan', ['c03_detect_stub.c', 'common/wrapalloc.c'], objs,
+                    wraps=wraps_for(v['cpu']) + ['malloc', 'calloc', 'realloc', 'free', 'strdup'],
+                    cpu=v['cpu'],
+                    defs=['VH_WRAPALLOC'] + ['STUB_' + s.upper() for s in v['stubs']])
 
 
 def build(ctx, variants):
